@@ -21,7 +21,7 @@ Next == \/ /\ l = 0 /\ sh = 0
 
 AllRules == {"C01.Accept", "C01.Reject", "C01.Data",
              "C06.NoPanic", "C06.Shape", "C06.CmdNoPanic",
-             "C07.ParEqual",
+             "C07.NoPanic", "C07.ParEqual", "C07.Orders", "C07.Schedule",
              "C08.Lossless", "C08.Blocks", "C08.NoOp",
              "C09.Accepted", "C09.SameRecords", "C09.FixedPoint", "C09.Layout", "C09.Exact",
              "C10.NoPanic", "C10.ErrShape", "C10.Order", "C10.FirstLine", "C10.Term", "C10.Json"}
@@ -100,7 +100,21 @@ Holds(r, ev, P) ==
       [] r = "C06.CmdNoPanic" -> live /\ c.kind = "fuzz" =>
             /\ \A i \in 1..Len(o.cmds) : o.cmds[i].panic = ""
             /\ o.render_panic = "" /\ o.json_valid
-      [] r = "C07.ParEqual" -> live => \A i \in 1..Len(o.par) : o.par[i].equal
+      [] r = "C07.NoPanic" -> ev.panic = ""
+      [] r = "C07.ParEqual" -> live /\ c.kind # "parsched" => \A i \in 1..Len(o.par) : o.par[i].equal
+      [] r = "C07.Orders" -> live /\ c.kind = "parsched" =>
+            o.unequal_orders = <<>> /\ o.bad_arrivals = 0 /\ o.orders >= 1
+      [] r = "C07.Schedule" -> live /\ c.kind = "parsched" =>
+            \A k \in 1..Len(o.naturals) :
+                LET E == o.naturals[k].events
+                    pos(kind, i) == {p \in 1..Len(E) : E[p] = <<kind, i>>}
+                IN  /\ o.naturals[k].equal
+                    /\ Len(E) = 2 * c.n
+                    (* a behaviour of KParallel projected on its send / receive steps: every batch is  *)
+                    (* handed over exactly once and received exactly once, after it was handed over    *)
+                    /\ \A i \in 0..(c.n - 1) :
+                          /\ Cardinality(pos("send", i)) = 1 /\ Cardinality(pos("collect", i)) = 1
+                          /\ \A p \in pos("send", i) : \A q \in pos("collect", i) : p < q
       [] r = "C08.Lossless" -> JoinLines(P.lines) = c.text
       [] r = "C08.Blocks" -> live /\ o.ok =>
             /\ Len(o.blocks) = Len(P.blocks)
